@@ -67,6 +67,42 @@ func structCellOnlyFields(a *ssa.Alloc) bool {
 	return true
 }
 
+// readOnlyCapture: the closure made by mc captures cell only to read it.
+func readOnlyCapture(mc *ssa.MakeClosure, cell ssa.Value, d int) bool {
+	f, ok := mc.Fn.(*ssa.Function)
+	if !ok || d > 3 {
+		return false
+	}
+	for i, b := range mc.Bindings {
+		if b != cell {
+			continue
+		}
+		if i >= len(f.FreeVars) {
+			return false
+		}
+		fv := f.FreeVars[i]
+		if fv.Referrers() == nil {
+			continue
+		}
+		for _, ref := range *fv.Referrers() {
+			switch x := ref.(type) {
+			case *ssa.UnOp:
+				if x.Op != token.MUL {
+					return false
+				}
+			case *ssa.MakeClosure:
+				if !readOnlyCapture(x, fv, d+1) {
+					return false
+				}
+			case *ssa.DebugRef:
+			default:
+				return false
+			}
+		}
+	}
+	return true
+}
+
 // readOnlyAddr: the address is only loaded from (directly or through further
 // field selections).
 func readOnlyAddr(a ssa.Value, d int) bool {
@@ -336,6 +372,12 @@ func resolveStructFields(fn *ssa.Function) bool {
 					stores = append(stores, x)
 				case *ssa.UnOp:
 					if x.Op != token.MUL {
+						plain = false
+					}
+				case *ssa.MakeClosure:
+					// captured by a closure that only reads it (`go send()` with send
+					// reading the token): the reads in this function are unaffected
+					if !readOnlyCapture(x, a, 0) {
 						plain = false
 					}
 				case *ssa.DebugRef:
